@@ -76,6 +76,7 @@ type chainWorld struct {
 	bSteps, bTrace []string
 	pushed         map[int]bool
 	tNontrivial    bool
+	forceZeroOut   bool // every new block carries the transactions without outputs
 	bNontrivial    bool
 }
 
@@ -267,6 +268,23 @@ func (w *chainWorld) newBlock() *cblock {
 		w.nextVal++
 		txs = append(txs, mkTx(common2.RegisterAsset, []*common2.Input{}, []int64{}, uint32(w.nextVal)))
 	}
+	// transactions without outputs: payload-only types (NextTurnDPOSInfo,
+	// RevertToPOW ...) and a transfer whose inputs all go to the fee
+	if rng.Chance(25) || w.forceZeroOut {
+		w.nextVal++
+		ty := common2.NextTurnDPOSInfo
+		if rng.Bool() {
+			ty = common2.RevertToPOW
+		}
+		txs = append(txs, mkTx(ty, []*common2.Input{}, []int64{}, uint32(w.nextVal)))
+	}
+	if rng.Chance(15) || w.forceZeroOut {
+		if u, ok := pick(); ok {
+			w.nextVal++
+			txs = append(txs, mkTx(common2.TransferAsset,
+				[]*common2.Input{{Previous: common2.OutPoint{TxID: w.txs[u.tx].Hash(), Index: uint16(u.idx)}}}, []int64{}, uint32(w.nextVal)))
+		}
+	}
 	// fan-out / fan-in
 	var fan *utxoRef
 	for _, u := range avail {
@@ -404,6 +422,9 @@ func (w *chainWorld) connect(b *cblock, confirm *payload.Confirm) {
 	}
 	w.bSteps = append(w.bSteps, fmt.Sprintf("(BStore %d (%d, %d), BUnit, %s)", b.id, b.id, cid, w.blkObs()))
 	w.bTrace = append(w.bTrace, fmt.Sprintf("store b%d confirm=%d", b.id, cid))
+	for _, id := range b.txs {
+		w.fetch(id)
+	}
 }
 
 func (w *chainWorld) disconnect() {
@@ -437,6 +458,10 @@ func (w *chainWorld) disconnect() {
 	w.tNontrivial = true
 	w.tSteps = append(w.tSteps, fmt.Sprintf("(TDisconnect %s, TUnit, %s)", coqList(txT), w.tObs()))
 	w.tTrace = append(w.tTrace, fmt.Sprintf("disconnect b%d txs=%v", b.id, b.txs))
+	// every key the store change touched is looked up at once
+	for _, id := range b.txs {
+		w.fetch(id)
+	}
 }
 
 func (w *chainWorld) fetch(id int) {
@@ -575,6 +600,24 @@ func runChainStore(e *env, facts *srcFacts) {
 		w.fetch(b1.txs[0])
 		w.emit("corpus-push")
 		e.st.Sample(map[string]interface{}{"cache": "GetBlock", "kind": "corpus-push", "trace": w.bTrace})
+		w.close()
+	}
+	// ---- corpus: blocks carrying transactions without outputs (a payload-only
+	// type and an all-fee transfer) are connected, rolled back (each of their
+	// transactions is looked up right after) and connected again.
+	{
+		w := newChainWorld(e, 0, 4, false)
+		w.connect(w.newBlock(), nil)
+		w.forceZeroOut = true
+		b2 := w.newBlock()
+		w.connect(b2, nil)
+		b3 := w.newBlock()
+		w.connect(b3, nil)
+		w.disconnect()
+		w.disconnect()
+		w.connect(b2, nil)
+		w.disconnect()
+		w.emit("corpus-zero-outputs")
 		w.close()
 	}
 	n := e.run.N(8, 150)
